@@ -10,7 +10,7 @@ def J(id, fn, params=None, required=True, timeout=300, engine='S', mem_gb=8):
 
 
 # ------------------------------------------------------------------------------------------------ S1: codec
-DEC_SKELETONS_QUICK = ['1', '4', '5', '1,4', '4;5', '4:2111', '5:11121', '1,,4', ';;4', '4,1;1', '4:1211,4', '4,;4', '4,,;1', '5;,4']
+DEC_SKELETONS_QUICK = ['1:7', '4:7111', '4:1711', '4:1171', '4:1117', '5:11117', '1', '4', '5', '1,4', '4;5', '4:2111', '5:11121', '1,,4', ';;4', '4,1;1', '4:1211,4', '4,;4', '4,,;1', '5;,4']
 DEC_SKELETONS_THOROUGH = ['4:3111', '5:11113', '4:2222', '1:3', '4,4,4', '5;5;5', '4:1311;;4', '1,4,5', ',,;;4:2111,,1', '5:22222', '4:1111,5:21112;1:2']
 
 
